@@ -24,7 +24,7 @@ PY
   if ! git -C /repo apply --check $d/patch.diff 2>/dev/null; then echo "| $n | $CHECK | caught | PATCH DOES NOT APPLY |" >> $TMP; continue; fi
   git -C /repo apply $d/patch.diff
   ./vcheck $CHECK --tier quick > /tmp/seedreg_$n.out 2>&1; RC=$?
-  git -C /repo checkout -- . ; git -C /repo reset -q
+  git -C /repo reset -q; git -C /repo checkout -- .
   SIG=$(grep -m1 "signature:" /tmp/seedreg_$n.out | sed 's/.*signature: //' | cut -c1-110)
   echo "| $n | $CHECK | caught | exit=$RC $( [ $RC = 1 ] && echo DETECTED || echo '**NOT DETECTED**') \`$SIG\` |" >> $TMP
   echo "$n $CHECK exit=$RC $SIG"
